@@ -1,18 +1,21 @@
 #!/usr/bin/env python3
 """Detection matrix of the seeded changes without touching /repo: for every /verif/seeded/<id> (or the ids given) run
 the quick tier of the checks named in its meta.json (default: the property's own check) against a patched scratch copy
-of /repo (patched_run.py).  Usage: ./seeded_run.py [--slot N] [--all-checks] [--seed S] [ids...]
+of /repo (patched_run.py).  Usage: ./seeded_run.py [--slot N] [--all-checks] [--seed S] [--runs R] [ids...]
 Prints `<id> [<property>] <title>: CAUGHT by <check>:<invariants> | MISSED`."""
 import glob, json, os, subprocess, sys
 
 a = sys.argv[1:]
-slot, allc, seed = "2", False, None
+slot, allc, seed, runs = "2", False, None, None
 while a and a[0].startswith("--"):
     if a[0] == "--slot":
         slot = a[1]
         a = a[2:]
     elif a[0] == "--seed":
         seed = a[1]
+        a = a[2:]
+    elif a[0] == "--runs":
+        runs = a[1]
         a = a[2:]
     elif a[0] == "--all-checks":
         allc = True
@@ -29,7 +32,7 @@ for d in dirs:
     env = dict(os.environ)
     if seed:
         env["VERIF_SEED"] = seed
-    p = subprocess.run(f"/verif/patched_run.py --slot {slot} {d}patch.diff {' '.join(checks)}", shell=True, capture_output=True, text=True, env=env)
+    p = subprocess.run(f"/verif/patched_run.py --slot {slot} {('--runs ' + runs) if runs else ''} {d}patch.diff {' '.join(checks)}", shell=True, capture_output=True, text=True, env=env)
     summ = [l for l in p.stdout.splitlines() if l.startswith("SUMMARY ")]
     res = json.loads(summ[0][8:])["results"] if summ else {}
     caught = [f"{c}:{'+'.join(r['invariants'])[:110]}" for c, r in res.items() if r["rc"] == 1]
